@@ -30,7 +30,7 @@ m = {
     "hooks": {"guard": "msi_verif",
               "enable": "RUSTFLAGS='--cfg msi_verif' (set by check.py when it builds the harness against /repo)",
               "baseline_off_cmd": "cd /repo && cargo test --workspace --no-fail-fast --offline",
-              "source_commits": [], "add_only": True},
+              "source_commits": ["d7f47d1", "ea41b5d"], "add_only": True},
     "engines": [{"name": "lean4-proof+correspondence", "path": "check.py",
                  "serves_properties": [c["property_id"] for c in checks],
                  "kind_free_text": "Lean 4 theorems over an executable model (lean/MsiModel, lean/MsiProofs); tables regenerated "
